@@ -143,9 +143,12 @@ CLAIMS = {
         text="Proved for every concurrency limit, both policies and every sequence of try_put / body completion / forwarder runs: running bodies never exceed the limit (serial: never two); started ++ queued = "
              "accepted messages in order (each accepted message started exactly once, in arrival order, none dropped or duplicated); a message is queued only while the node is saturated, so an idle node "
              "has an empty queue; a rejecting node never queues. Tie: a real function_node whose bodies block until the script releases them is driven op by op; results, start counts, start order, "
-             "my_concurrency and queue length are compared with the model; oracles: observed concurrency <= limit, accepted = finished at wait_for_all, wait_for_all does not return while a body runs.",
+             "my_concurrency and queue length are compared with the model; oracles: observed concurrency <= limit, accepted = finished at wait_for_all, wait_for_all does not return while a body runs. "
+             "Push/pull edge protocol of a limited REJECTING node behind a buffering sender (PullModel: rejection, register_predecessor arriving at any later moment, forwarder_busy / forwarder task, pull at body completion, flip back to push): "
+             "proved for every operation sequence (rejected_message_is_not_stranded): limit, started ++ waiting = put in order, forwarder_busy set exactly while a forwarder exists, a message waits only while a registration, a running body or a forwarder is still bound to act, idle => everything started; "
+             "tie fnode-pull: settled white-box states (my_concurrency, queue size, predecessor registered, forwarder_busy, started) after every put / body release.",
         note="PARTIAL: only function_input_base is modelled. Successor caches / broadcast fan-out, input_node, multifunction/continue/async nodes, reserve_wait, cancellation and exceptions in a graph are "
-             "covered by real-thread oracle runs only (limit, exactly-once per node, once per successor, idle at wait_for_all); the pull path of rejecting nodes with buffering predecessors is exercised under C15.",
+             "covered by real-thread oracle runs only (limit, exactly-once per node, once per successor, idle at wait_for_all); the sender of the pull protocol is abstracted to a FIFO buffer (queue_node); its own forwarding task and the window between a failed try_get and the re-registration as successor are not modelled.",
         ref="4/C14"),
     "C02": dict(
         technique="Coq proof: inductive invariant over all interleavings (any number of waiters and notifiers) of the concurrent_monitor wait/notify protocol; step-level differential tie against the real "
